@@ -31,6 +31,9 @@ ASSUMPTIONS = [
     "bytes input is compared only for texts that have a UTF-8 encoding (no lone surrogates)",
     "bytes sources that are not valid UTF-8 must be rejected with GraphQLSyntaxError (position = character offset of the first "
     "undecodable byte inside the U+FFFD-replaced text, fix C01-B8); decoding itself is not modelled in Lean (only exercised)",
+    "`\"\"` [lookahead != `\"`] (three quotes always open a block string) and IntegerPart `0` [lookahead != Digit] are readings of the "
+    "June-2018 lexical grammar pinned by the suite; Spec/LexicalReadings.lean names them (EmptyStringLookahead, ZeroLookahead) - "
+    "known findings LA3, LA4",
     "optional `{...}` blocks of type-system definitions are read greedily ([lookahead != {], as graphql-js and the 2021 text): the literal "
     "June-2018 grammar is ambiguous there (`type A {b}`); Spec/Grammar.lean takes the greedy reading explicitly (blockV / nla) - known finding LA2",
     "source types: the documented signature is Union[str, bytes]; instances of subclasses of str / bytes are in scope (duck typing), "
@@ -841,6 +844,7 @@ def run(ctx):
             lexs.append(mutate(rng, t[1]))
     oracle_single_lexemes(ctx, lexs, "generated")
     oracle_number_lookahead(ctx, rng)
+    oracle_spec_readings(ctx)
     oracle_comments(ctx, rng)
     oracle_invalid_utf8(ctx, rng)
     oracle_blockless_definitions(ctx)
@@ -1363,6 +1367,60 @@ def oracle_number_lookahead(ctx, rng):
         elif a[1].to_dict() != b[1].to_dict():
             ctx.fail("number-name-glued-tree-differs:%s" % entry, "glued and spaced texts parse to different trees",
                      {"part": PART, "kind": "glued_parse", "text": cps(glued), "spaced": cps(spaced), "entry": entry})
+
+
+# (glued text, the same with a space at the seam) - deterministic named probes of the two other pinned readings
+LA3_CASES = [('""""', '"" ""'), ('"""a"', '"" "a"'), ('"""\\n"', '"" "\\n"'), ('a """"', 'a "" ""')]
+LA3_PARSE_CASES = [("value", '[""""]', '["" ""]'), ("value", '["""a"]', '["" "a"]'), ("document", '{a(x:["""b"])}', '{a(x:["" "b"])}')]
+LA4_CASES = [("00", "0 0"), ("01", "0 1"), ("-007", "-0 0 7"), ("00.5", "0 0.5"), ("-00", "-0 0"), ("0 00", "0 0 0"), ("00e1", "0 0e1")]
+LA4_PARSE_CASES = [("value", "[00]", "[0 0]"), ("value", "[-007]", "[-0 0 7]"), ("value", "[00.5]", "[0 0.5]"),
+                   ("document", "{a(x:[01])}", "{a(x:[0 1])}")]
+
+
+def oracle_spec_readings(ctx):
+    # LA3 / LA4 (Spec/LexicalReadings.lean, Props/C01_readings.lean): June 2018 read with plain maximal munch derives four
+    # quotes as two empty strings and `00` as `0` `0`; the lexer rejects both (three quotes always open a block string - the
+    # dispatch before `_read_string`, pinned by test_lexer.py::test_useful_string_errors[four quotes]; no digit after the
+    # integer part `0` - `_read_over_integer`, pinned by test_useful_number_errors['00', '01']); graphql-js does the same.
+    # Named probes; known findings LA3 / LA4. The spaced text must always be accepted, and the glued one must never be
+    # accepted with other tokens than the spaced one.
+    from corr import C01_parse as PP
+    for sig, what, cases, pcases in (
+            ("empty-string-lookahead:adjacent-string-rejected",
+             "an empty string directly followed by a string is rejected (three quotes always open a block string) although "
+             "the same text with a space in between is accepted", LA3_CASES, LA3_PARSE_CASES),
+            ("zero-lookahead:leading-zero-rejected",
+             "the integer part 0 directly followed by a digit is rejected although the same text with a space in between is "
+             "accepted", LA4_CASES, LA4_PARSE_CASES)):
+        for glued, spaced in cases:
+            ctx.count()
+            rg, rs = real_lex(glued), real_lex(spaced)
+            ctx.stat("readings:%s:%s" % (sig.split(":")[0], rg[0]))
+            ctx.nontrivial(("reading", glued))
+            if rg[0] == "internal" or rs[0] != "ok":
+                ctx.fail("internal:%s:%s" % (rg[1], classes(glued)), "lexer misbehaves on the named probe of a spec reading",
+                         {"part": PART, "kind": "lex", "text": cps(glued)})
+            elif rg[0] == "syntax":
+                ctx.fail(sig, what, {"part": PART, "kind": "glued", "text": cps(glued), "spaced": cps(spaced)})
+            elif [(x[0], x[3]) for x in rg[1]] != [(x[0], x[3]) for x in rs[1]]:
+                ctx.fail("reading-glued-tokens-differ:%s:%s" % (sig.split(":")[0], classes(glued)),
+                         "the glued text is accepted with other tokens than the spaced one",
+                         {"part": PART, "kind": "glued", "text": cps(glued), "spaced": cps(spaced)})
+        for entry, glued, spaced in pcases:
+            ctx.count()
+            fl = dict(FLAG0, no_location=True)
+            a, b = PP.real_parse(glued, entry, fl), PP.real_parse(spaced, entry, fl)
+            if a[0].startswith("internal") or b[0] != "ok":
+                ctx.fail("internal:%s:reading-parse" % a[0], "parser misbehaves on the named probe of a spec reading",
+                         {"part": PART, "kind": "glued_parse", "text": cps(glued), "spaced": cps(spaced), "entry": entry})
+            elif a[0] == "syntax":
+                ctx.fail(sig + ":parse", what, {"part": PART, "kind": "glued_parse", "text": cps(glued), "spaced": cps(spaced),
+                                                "entry": entry})
+            elif a[1].to_dict() != b[1].to_dict():
+                ctx.fail("reading-glued-tree-differs:%s:%s" % (sig.split(":")[0], entry),
+                         "glued and spaced texts parse to different trees",
+                         {"part": PART, "kind": "glued_parse", "text": cps(glued), "spaced": cps(spaced), "entry": entry})
+    check_texts(ctx, [g for g, _ in LA3_CASES + LA4_CASES] + [s for _, s in LA3_CASES + LA4_CASES], "readings")
 
 
 def real_loc(body, pos):
